@@ -165,7 +165,7 @@ func init() {
 	register(&propDef{
 		id: "C02",
 		meta: propMeta{
-			explanation: "Decides three structural necessary conditions of 'gossip never loses, fabricates or rolls back': (R1) own state is written only locally - the functions that write s.nodes[s.localID] are unreachable in the VTA call graph from the packet and stream handlers, and every other write to a node state, its entries or the nodes table is guarded by a fact that excludes the local node (key != localID, R.ID != localID, insert-if-absent with ID := key, or deletion of ids collected only under Expiry set); (R2) every store to a node's Version is v+1 (owner), e.Version under the fact e.Version > R.Version (observer), or initialisation of a fresh node; (R3) a delta is built only by clusterState.deltaEntry, which appends exactly the entries with Version > fromVersion and sorts them ascending by Version on every path; truncation to a whole-entry prefix is C13. Not decided: the induction over arbitrary histories (value equality per key and version, relays, compaction interleavings).",
+			explanation: "Decides three structural necessary conditions of 'gossip never loses, fabricates or rolls back': (R1) own state is written only locally - the functions that write s.nodes[s.localID] are unreachable in the VTA call graph from the packet and stream handlers, and every other write to a node state, its entries or the nodes table is guarded by a fact that excludes the local node (key != localID, R.ID != localID, insert-if-absent with ID := key, or deletion of ids collected only under Expiry set); (R2) every store to a node's Version is v+1 (owner), e.Version under the fact e.Version > R.Version (observer), or initialisation of a fresh node; (R3) a delta is built only by clusterState.deltaEntry, which appends exactly the entries with Version > fromVersion and sorts them ascending by Version on every path; truncation to a whole-entry prefix is C13. Not decided: the induction over arbitrary histories (value equality per key and version, relays, compaction interleavings). Second round: (R6) loops of clusterState methods are complete; (R7) a stored entry advances the applied version to that entry's version; (R8) observer-side compaction deletes exactly the entries at or below the version parsed from a received internal compact entry, and always does so when such a marker parses; (R9) a node object enters the table only on a miss of its key.",
 			ruleText:    "obligation = one write site / Version store / append / return; non-trivial = construct exists; distinct = distinct keys",
 			assumptions: []string{"msgpack decoding populates digest/delta values only (inputs), never nodeState (no reflection on guarded types)", "the local id is always present in s.nodes (constructor; C11.R1 shows it is never deleted)"},
 		},
@@ -973,7 +973,7 @@ func init() {
 	register(&propDef{
 		id: "C11",
 		meta: propMeta{
-			explanation: "Decides the structural clauses of the membership lifecycle: (R1) Unreachable, Expiry and remote Left are never stored on the local node and the local node is never deleted from the table (same guard forms as C02.R1, helpers classified at every call site); the local Left flag is stored only together with the leave marker; (R2) Unreachable=true and remote Left=true are each paired in the same block with Expiry = now+nodeExpiry, Unreachable=false with Expiry = zero and only under Left false; (R3) the leave marker key is written only by the local leave, and a remote Left=true is stored only under the facts entry.Internal and entry.Key == leftKey; (R4) digest discovery inserts only under entry.Left false; (R5) deleting a node is followed on every path by OnExpired(id) and failureDetector.Remove(id); (R6) LiveNodes and Leave skip local, left and unreachable nodes; the routing side (status mapping, promotion keeps a recorded non-active status, active-only lookup) is checked by the C04 rules which this check also runs. Not decided: 'stays forgotten unless it really returns' (finding F2 in DESIGN.md: a missing mechanism, no sound static rule).",
+			explanation: "Decides the structural clauses of the membership lifecycle: (R1) Unreachable, Expiry and remote Left are never stored on the local node and the local node is never deleted from the table (same guard forms as C02.R1, helpers classified at every call site); the local Left flag is stored only together with the leave marker; (R2) Unreachable=true and remote Left=true are each paired in the same block with Expiry = now+nodeExpiry, Unreachable=false with Expiry = zero and only under Left false; (R3) the leave marker key is written only by the local leave, and a remote Left=true is stored only under the facts entry.Internal and entry.Key == leftKey; (R4) digest discovery inserts only under entry.Left false; (R5) deleting a node is followed on every path by OnExpired(id) and failureDetector.Remove(id); (R6) LiveNodes and Leave skip local, left and unreachable nodes; the routing side (status mapping, promotion keeps a recorded non-active status, active-only lookup) is checked by the C04 rules which this check also runs. Not decided: 'stays forgotten unless it really returns' (finding F2 in DESIGN.md: a missing mechanism, no sound static rule). Second round: (R6) UnreachableNodes is exactly the remote unreachable nodes, Leave never targets the node itself; (R7) Unreachable is written only on a real transition; (R8) loops complete; (R10) UpdateLiveness and RemoveExpired are driven by the scheduler and RemoveExpired forwards to RemoveExpiredAt(now).",
 			ruleText:    "obligation = one store / insert / delete / append site; distinct = distinct keys",
 			assumptions: []string{"the local id is inserted by the constructor only"},
 		},
